@@ -53,7 +53,9 @@ type World struct {
 	PG    *fakepg.Server
 	Pool  *pgxpool.Pool
 	Nodes map[string]*Node
-	Tasks []*TaskH
+	Tasks []*TaskH // the tasks of the current configuration
+	All   []*TaskH // every task handle ever built with a distinct id (earlier configurations included)
+	Gen   int      // configuration generation: task ids are index + 1 + 10*Gen
 	Names *Names
 	Rec   *Recorder
 	Init  DbView
@@ -194,7 +196,7 @@ func (w *World) connect(migrate bool) error {
 		if spec == nil {
 			return fmt.Errorf("task for unknown integration %q", info.IGName)
 		}
-		h := &TaskH{ID: i + 1, T: t, Info: info, Spec: spec}
+		h := &TaskH{ID: i + 1 + 10*w.Gen, T: t, Info: info, Spec: spec}
 		node := w.Nodes[info.SrcName]
 		if node == nil {
 			return fmt.Errorf("task for unknown source %q", info.SrcName)
@@ -211,8 +213,71 @@ func (w *World) connect(migrate bool) error {
 		w.Rec.igs[h.ID] = spec
 		w.Rec.srcOf[h.ID] = info.SrcName
 		w.Tasks = append(w.Tasks, h)
+		known := false
+		for k, o := range w.All {
+			if o.ID == h.ID {
+				w.All[k] = h // same configuration rebuilt after a restart
+				known = true
+			}
+		}
+		if !known {
+			w.All = append(w.All, h)
+		}
 	}
 	return nil
+}
+
+// Reconfigure models a restart of the process with another batch size /
+// concurrency for source src ("" = every source): the configuration is
+// rebuilt, every connection dropped, pool and tasks rebuilt by loadTasks.
+// The tasks of the new configuration get new ids (old id + 10) on the same
+// (source, integration) pairs.
+func (w *World) Reconfigure(src string, batch, conc int) error {
+	srcs := append([]SrcSpec{}, w.Spec.Srcs...)
+	for i := range srcs {
+		if src == "" || srcs[i].Name == src {
+			srcs[i].Batch, srcs[i].Conc = batch, conc
+		}
+	}
+	conf, js, err := BuildConfig(srcs, w.Spec.IGs)
+	if err != nil {
+		return err
+	}
+	w.Spec.Srcs, w.Conf, w.JSON = srcs, conf, js
+	w.Gen++
+	return w.Restart(false)
+}
+
+// Rep returns the task of the CURRENT configuration that works on the same
+// (source, integration) pair as task tid (of any configuration).
+func (w *World) Rep(tid int) *TaskH {
+	o := w.Task(tid)
+	if o == nil {
+		return nil
+	}
+	for _, t := range w.Tasks {
+		if t.Info.SrcName == o.Info.SrcName && t.Info.IGName == o.Info.IGName {
+			return t
+		}
+	}
+	return o
+}
+
+// SamePair reports whether task tid works on t's pair.
+func (w *World) SamePair(tid int, t *TaskH) bool {
+	o := w.Task(tid)
+	return o != nil && o.Info.SrcName == t.Info.SrcName && o.Info.IGName == t.Info.IGName
+}
+
+// MaxBatch is the largest batch size any configuration gave t's pair.
+func (w *World) MaxBatch(t *TaskH) int {
+	m := t.Info.Batch
+	for _, o := range w.All {
+		if w.SamePair(o.ID, t) && o.Info.Batch > m {
+			m = o.Info.Batch
+		}
+	}
+	return m
 }
 
 func (w *World) Close() {
@@ -230,9 +295,14 @@ func (w *World) Close() {
 	}
 }
 
-// Task returns the task with the given id.
+// Task returns the task with the given id (current or earlier configuration).
 func (w *World) Task(id int) *TaskH {
 	for _, t := range w.Tasks {
+		if t.ID == id {
+			return t
+		}
+	}
+	for _, t := range w.All {
 		if t.ID == id {
 			return t
 		}
